@@ -65,6 +65,7 @@ def mag_pair(r: fb.Rng, zero_ok=True):
     if k == 2: return m, m * r.choice([1e16, 1e-16, 1e8, 1e-8])
     if k == 3 and zero_ok: return (0.0, m) if r.chance(0.5) else (m, 0.0)
     if k == 4: return float(r.below(9) + 1), float(r.below(9) + 1)
+    if k == 5: return r.logu(1e2, 1e6), r.logu(1e2, 1e6)
     return m, mag_dom(r, zero_ok)
 
 def geo_pair(P, r: fb.Rng, zero_ok=True, big=True, rel=None):
